@@ -312,7 +312,9 @@ func c10Gen(w *bufio.Writer, seed int64, tier string) {
 		var buf bytes.Buffer
 		bw := bufio.NewWriter(&buf)
 		cidr := c%2 == 0
-		if cidr {
+		if cidr && c%4 == 0 {
+			c08GenRaceCleanup(bw, r)
+		} else if cidr {
 			c08GenRace(bw, r)
 		} else {
 			c09GenRace(bw, r)
